@@ -606,16 +606,22 @@ pub fn c08(rec: &mut Rec, rng: &mut Rng, thorough: bool) {
             sim.poll(rec);
         }
         for i in 0..k {
+            // one to three pipelined requests per client: several responses are queued for one connection at the flush
+            for _ in 0..rng.range(1, 3) {
+                sim.plan_request(rng, i);
+            }
             sim.send_next(rec, rng, i);
             while !sim.plans[i].outq.is_empty() {
                 sim.send_next(rec, rng, i);
             }
         }
-        for _ in 0..(2 * k + 2) {
+        for _ in 0..(4 * k + 4) {
             sim.poll(rec);
         }
+        // answered per client in the order yielded (A1 and the in-order clause of C07), clients interleaved at random
         while !sim.w.held.is_empty() {
-            let idx = rng.below(sim.w.held.len());
+            let ci = sim.w.held[rng.below(sim.w.held.len())].client;
+            let idx = sim.w.held.iter().position(|h| h.client == ci).unwrap();
             sim.respond(rec, rng, idx);
         }
         sim.w.flush(rec);
@@ -1242,6 +1248,35 @@ pub fn srv_conn(rec: &mut Rec, rng: &mut Rng, thorough: bool) {
             if !sim.w.yielded.iter().any(|(_, t)| *t == format!("/c{}/ok", c)) {
                 rec.oracle_fail("C11", "a well-formed request after a rejected one was not yielded", &sim.w.log);
             }
+        }
+        // C04: EVERY violation is answered — a second oversized declaration right after the first, each arriving whole
+        // in one read, gets its own 400 with its own numbers
+        {
+            let g = sim.connect(rec);
+            sim.poll(rec);
+            let lim = l2; // the limit in force when g was accepted
+            let mut got_all = true;
+            for (k, extra) in [(0usize, 1usize), (1, 7)] {
+                let n_decl = lim + extra;
+                let head = format!("PUT /c{}/v{} HTTP/1.1\r\nContent-Length: {}\r\n\r\n", g, k, n_decl);
+                sim.w.clients[g].received.clear();
+                sim.w.send(rec, g, head.as_bytes());
+                sim.plans[g].sent_garbage = true;
+                for _ in 0..3 {
+                    sim.poll(rec);
+                }
+                sim.w.client_read(rec, g);
+                let (resps, _) = split_responses(&sim.w.clients[g].received);
+                let ok = resps.len() == 1
+                    && resps[0].0 == 400
+                    && String::from_utf8_lossy(&resps[0].1).contains(&format!("size {} ", n_decl))
+                    && String::from_utf8_lossy(&resps[0].1).contains(&format!("limit of {} ", lim));
+                if !ok {
+                    got_all = false;
+                    rec.oracle_fail("C04", &format!("violation number {} on one connection (limit {}, declared {}): received {:?}", k + 1, lim, n_decl, resps.iter().map(|r| (r.0, String::from_utf8_lossy(&r.1).to_string())).collect::<Vec<_>>()), &sim.w.log);
+                }
+            }
+            let _ = got_all;
         }
         // C13 through the server: the client receives 100 Continue without having sent the body
         let c = sim.connect(rec);
